@@ -12,5 +12,5 @@ def run(ctx):
     from ..scen_misc import pipe, variable_get, function_names
     contexts(ctx); pipe(ctx); variable_get(ctx); function_names(ctx)
     arithmetic(ctx, which=None if not ctx.quick else ['add', 'divide', 'abs'])
-    from ..scen_misc import functional
-    functional(ctx)
+    from ..scen_misc import functional, fold
+    functional(ctx); fold(ctx)
